@@ -4,7 +4,8 @@
    was the signed content or the signature altered, WHAT the signature's References select, which Issuer the signed element names, what its
    KeyInfo ships) and from whom the SP trusts — not from the code's way of picking certificates.
    The single-message view of round 1 (spec / satisfied over Model.input) is kept below. *)
-From Coq Require Import Bool List.
+From Coq Require Import Bool String List.
+From Verif Require Base.Str.
 From Verif Require Import C01.Model.
 Import ListNotations.
 
@@ -121,6 +122,42 @@ Fixpoint spec_seq_b (c : config) (ms : list msg) (ids : list bool) : bool :=
   | [], [] => true
   | m :: ms', i :: ids' => spec_m_b c m i && spec_seq_b c ms' ids'
   | _, _ => false
+  end.
+
+(* ---- round 4: the options are the service provider's, however they reach the client ----------------
+   "every setting of the service provider's signature options": what the deployer wrote for the SP —
+   True / False, as booleans or as the strings "true" / "false", in the service/sp section of the
+   configuration or set for the SP on the loaded configuration object (after fix 6bdc97cd: any text
+   that says a boolean, see `says`) — and nothing else: neither the
+   class of the configuration object (SPConfig, IdPConfig, Config), nor its current context, nor the way
+   the client got it (object, factory, file, dict), nor a further service section of the same entity. *)
+(* A boolean written as text says what it says, whatever the case and the blanks around it: true / yes /
+   on / 1, false / no / off / 0 (the empty text demands nothing); any other text says nothing, and a service
+   provider whose options cannot be read must not come into being: no identity from any message. *)
+Definition says (s : string) : option bool :=
+  let w := Str.lower (Str.strip s) in
+  match find (String.eqb w) ["true"; "yes"; "on"; "1"]%string with
+  | Some _ => Some true
+  | None => match find (String.eqb w) ["false"; "no"; "off"; "0"; ""]%string with Some _ => Some false | None => None end
+  end.
+Definition meant_v (v : pv) : option optv :=
+  match v with PB b => Some (B b) | PT s => match says s with Some b => Some (B b) | None => None end end.
+Definition meant (w : written) : option optv :=
+  match w with WUnset => Some Unset | WDict v | WSet v => meant_v v end.
+Definition meant_config (k : client) : option config :=
+  match meant (k_wr k), meant (k_wa k), meant (k_wor k) with
+  | Some a, Some b, Some c => Some {| c_wr := a; c_wa := b; c_wor := c; c_only := k_only k |}
+  | _, _, _ => None
+  end.
+Definition spec_client (k : client) (ms : list msg) (ids : list bool) : Prop :=
+  match meant_config k with
+  | Some c => spec_seq c ms ids
+  | None => length ids = length ms /\ Forall (fun i => i = false) ids
+  end.
+Definition spec_client_b (k : client) (ms : list msg) (ids : list bool) : bool :=
+  match meant_config k with
+  | Some c => spec_seq_b c ms ids
+  | None => Nat.eqb (length ids) (length ms) && forallb negb ids
   end.
 
 (* ---- the single-message view of round 1: states given, Response and assertion of the IdP ---------- *)
